@@ -1,5 +1,6 @@
 // C12, further views: one-step equivariance of the own-step under x -> a x (a > 0), lifted to histories by induction
 // because the scaled run keeps the state relation below at every step.
+use crate::props::c00_affine::*;
 use crate::props::c04_averages::*;
 
 // Drawdown: peak scales with a, the relative decline does not change
